@@ -40,13 +40,20 @@ def _case(draw, tier):
     spec["fscale"] = draw(st.sampled_from([0.5, 1.0, 4.0]))
     t0 = draw(st.sampled_from([0.0, 0.0, -0.5, 1.0, 0.1]))
     span = draw(st.sampled_from([0.2, 0.5, 1.0, 1.0, 2.0]))
+    t1 = t0 + span
+    if draw(st.sampled_from([False, False, False, True])):
+        # a window that starts at a negative time and ends close to (not at) zero: the last clipped step is then much
+        # longer than |ts[-1]|, where curr_t + (ts[-1] - curr_t) need not round to ts[-1]
+        t0, t1 = draw(st.sampled_from([(-1.3, -0.007), (-0.5, 0.0093), (-1.0, 0.013), (-0.7, 0.0371), (-2.0, 0.11),
+                                       (-0.993, 0.007), (-0.21, -0.0003)]))
+        span = t1 - t0
     dt_min = draw(st.sampled_from([1e-1, 2e-2, 1e-2, 1e-3]))
     dt = dt_min * draw(st.sampled_from([1.0, 2.0, 5.0, 10.0, 30.0]))
     if span / dt_min > (400 if tier == "quick" else 2000):
         dt_min = span / (400 if tier == "quick" else 2000)
         dt = max(dt, dt_min)
     tol = 10.0 ** draw(st.integers(-6, 1))
-    return {"spec": spec, "combo": combo, "t0": t0, "t1": t0 + span, "dt": dt, "dt_min": dt_min,
+    return {"spec": spec, "combo": combo, "t0": t0, "t1": t1, "dt": dt, "dt_min": dt_min,
             "rtol": tol * draw(st.sampled_from([0.1, 1.0, 10.0])), "atol": tol,
             "outs": draw(st.lists(st.floats(0.02, 0.98), min_size=0, max_size=3)),
             "entropy": draw(st.integers(0, 2 ** 31 - 2))}
